@@ -87,14 +87,32 @@ pub fn quiet_panics() {
 pub struct Out {
     w: std::io::BufWriter<std::io::Stdout>,
     pub lines: u64,
+    /// output-level sharding: only every n-th case line (offset i) is printed
+    pub shard: (u64, u64),
 }
 
 impl Out {
     pub fn new() -> Self {
-        Out { w: std::io::BufWriter::with_capacity(1 << 20, std::io::stdout()), lines: 0 }
+        Out { w: std::io::BufWriter::with_capacity(1 << 20, std::io::stdout()), lines: 0, shard: (0, 1) }
     }
     /// one case: op, args, implementation output
+    pub fn sharded(shard: (u64, u64)) -> Self {
+        let mut o = Out::new();
+        o.shard = shard;
+        o
+    }
+    /// should the next case be produced at all? (lets generators skip expensive work)
+    pub fn mine(&self) -> bool {
+        self.lines % self.shard.1 == self.shard.0
+    }
+    pub fn skip(&mut self) {
+        self.lines += 1;
+    }
     pub fn case(&mut self, op: &str, args: &[&str], imp: &str) {
+        if !self.mine() {
+            self.lines += 1;
+            return;
+        }
         self.w.write_all(op.as_bytes()).unwrap();
         for a in args {
             self.w.write_all(b"\t").unwrap();
